@@ -318,7 +318,7 @@ def shape_inputs(sh, fn, fmt, tier, rng):
 
 def region_inputs(sh, fn, fmt, n, rng):
     """Random neighbourhoods of the pair classes: each component uniform over the bit patterns within +-4 binades
-    of its anchor."""
+    of its anchor (half of the time one of the two exactly on its anchor)."""
     p = bits.PREC[fmt]
     sb, inf = sign_bit(fmt), inf_mag(fmt)
     span = 4 << (p - 1)
@@ -326,14 +326,15 @@ def region_inputs(sh, fn, fmt, n, rng):
     cls = sh["pairs"][fn]
     for i in range(n):
         ax, ay = cls[rng.randrange(len(cls))]
+        exact = rng.choice(["", "", "x", "y"])          # half of the time one component sits exactly on its anchor
         out = []
-        for a in (ax, ay):
+        for c, a in (("x", ax), ("y", ay)):
             m = sh["comp"][(a, 0)][fmt]
             lo, hi = max(0, m - span), min(inf, m + span)
-            out.append(rng.randint(lo, hi) | (sb if rng.getrandbits(1) else 0))
+            out.append((m if c == exact else rng.randint(lo, hi)) | (sb if rng.getrandbits(1) else 0))
         xs.append(out[0])
         ys.append(out[1])
-        tags.append(["near", ax, ay])
+        tags.append(["near", ax, ay, exact])
     return xs, ys, tags
 
 
@@ -369,22 +370,47 @@ def mclass(b, fmt):
     return "huge"
 
 
+def _exp_xclass(b, fmt):
+    """exp: the real part relative to the overflow / underflow thresholds of e^x (descriptive)."""
+    v = fl(b, fmt)
+    fi = numpy.finfo(bits.FLOAT[fmt])
+    lo, hi = float(numpy.log(numpy.float64(fi.smallest_subnormal))), float(numpy.log(numpy.float64(fi.max)))
+    if numpy.isinf(v):
+        return "inf" if v > 0 else "-inf"
+    if v == 0:
+        return "0"
+    return "<2udf" if v < 2 * lo else "<udf" if v < lo else "<0" if v < 0 else "<ovf" if v <= hi else "<2ovf" if v <= 2 * hi else ">=2ovf"
+
+
 def region(fn, dtype, xb, yb):
     fmt = COMP[dtype]
+    if fn == "exp":
+        return "x=%s,y=%s" % (_exp_xclass(xb, fmt), mclass(yb, fmt))
     return "x=%s,y=%s" % (mclass(xb, fmt), mclass(yb, fmt))
 
 
-def fail_key(m, clauses):
-    """A finding is a CLASS: function, dtype, magnitude classes of the two input components, failing clauses with
-    the severity class.  Failures of the zero-sign clauses alone (the value is right, the sign of an exact zero is
-    not) are keyed by which input components are zeros / infinite only."""
+def fail_keys(m, clauses):
+    """A finding is a CLASS: function, dtype, magnitude classes of the two input components, the failing COMPONENT and
+    its failing clauses with the severity class: [(key, clauses of the component)].  A component that fails only the
+    zero-sign clause (the value is right, the sign of an exact zero is not) is keyed by which input components are
+    zeros / infinite only."""
     fn, dtype, xb, yb = m[0], m[1], m[2], m[3]
     fmt = COMP[dtype]
-    if all(c.startswith("zero_sign") for c in clauses):
-        cx, cy = mclass(xb, fmt), mclass(yb, fmt)
-        coarse = lambda c: c if c in ("0", "inf") else "finite"
-        return "%s:%s:x=%s,y=%s:%s" % (fn, dtype, coarse(cx), coarse(cy), "+".join(clauses))
-    return "%s:%s:%s:%s" % (fn, dtype, region(fn, dtype, xb, yb), "+".join(clauses))
+    out = []
+    for comp in ("re", "im"):
+        cl = sorted(c[:-3] for c in clauses if c.endswith("_" + comp))
+        if not cl:
+            continue
+        if cl == ["zero_sign"]:
+            coarse = lambda c: c if c in ("0", "inf") else "finite"
+            reg = "x=%s,y=%s" % (coarse(mclass(xb, fmt)), coarse(mclass(yb, fmt)))
+        else:
+            reg = region(fn, dtype, xb, yb)
+        out.append(("%s:%s:%s:%s:%s" % (fn, dtype, reg, comp, "+".join(cl)), cl))
+    rest = [c for c in clauses if not (c.endswith("_re") or c.endswith("_im"))]
+    if rest:
+        out.append(("%s:%s:%s:%s" % (fn, dtype, region(fn, dtype, xb, yb), "+".join(sorted(rest))), rest))
+    return out
 
 
 # ------------------------------------------------------------------------------------------------ error-maximising screen
@@ -461,7 +487,8 @@ def _np_patterns(fmt, n, g, kind, anchors=None):
         return sign | (e << numpy.uint64(p - 1)) | frac
     a = numpy.asarray(anchors, dtype=numpy.int64)[g.integers(0, len(anchors), size=n)]
     span = 4 << (p - 1)
-    m = numpy.clip(a + g.integers(-span, span + 1, size=n), 0, inf_mag(fmt)).astype(numpy.uint64)
+    off = numpy.where(g.integers(0, 4, size=n) == 0, 0, g.integers(-span, span + 1, size=n))    # a quarter exactly on the anchor
+    m = numpy.clip(a + off, 0, inf_mag(fmt)).astype(numpy.uint64)
     return sign | m
 
 
@@ -631,11 +658,11 @@ def run(tier, seed):
             raise tlc.MachineryError("the driver generated a NaN input: %s" % describe(m))
     for eid, clauses in res["fails"]:
         m = b.meta[eid]
-        key = fail_key(m, clauses)
         stats[(m[0], m[1])]["failing"] += 1
-        chk.fail(key, "%s violates %s" % (describe(m), clauses),
-                 dict(fn=m[0], dtype=m[1], x=m[2], y=m[3], wre_observed=m[4], wim_observed=m[5], clauses=clauses,
-                      source=m[6], shape=m[7]))
+        for key, cl in fail_keys(m, clauses):
+            chk.fail(key, "%s violates %s" % (describe(m), cl),
+                     dict(fn=m[0], dtype=m[1], x=m[2], y=m[3], wre_observed=m[4], wim_observed=m[5], clauses=clauses,
+                          source=m[6], shape=m[7]))
     # the target rate on the two stated distributions, judged by the spec
     rate_events, rate_meta = [], []
     for fn in FNS:
@@ -729,3 +756,82 @@ def replay(path):
     for eid, clauses in res["fails"]:
         print("VIOLATION property=%s replay=%s  # %s violates %s" % (PID, path, describe(b.meta[eid]), clauses))
     return 1 if res["fails"] else 0
+
+
+def selftest(quick=True, nproc=None, verbose=True):
+    """Soundness self-test of the complex enclosure layer (MACHINERY; never a verdict).  True iff everything passed.
+    1. every function of AccuracyC!TrueVal on n random dyadic points per width (W = 96 and 160; n = 1000, quick 150):
+       the mpmath value (>= 400 bits; sides of cuts / signs from the recorded sign bits) of BOTH components lies
+       inside the enclosure, the enclosure is narrower than 2^(12-W) relative, exact zeros are the point 0;
+    2. TLC with and without the Java BigInt overrides prints identical enclosures;
+    3. the U1 laws hold (MC_AccuracyC.cfg) and the sabotaged variant (MC_AccuracyC_neg.cfg) is caught;
+    4. negative control of the comparison itself: displaced references are reported as misses;
+    5. binding: one corrupted bit of one recorded result component -> exactly that event is rejected."""
+    ok = True
+    say = print if verbose else (lambda *a, **k: None)
+    n = 150 if quick else 1000
+    nproc = nproc or (6 if quick else tlc.NCPU)
+    tlc.ensure_overrides()
+    t0 = time.time()
+    for W in (96, 160):
+        evs = selftest_events(ENCL_FNS, n, W, 2000 + W)
+        r = tlc.validate_events("Trace_AccuracyC", "Trace.cfg", evs, nproc=nproc, name="enclc")
+        say("selftest C01: AccuracyC!TrueVal vs mpmath, W=%d: %d points x 2 components, %d failing, %.1fs" % (W, len(evs), len(r["fails"]), r["wall"]))
+        if r["fails"]:
+            ok = False
+            byid = {e["id"]: e for e in evs}
+            for eid, cl in r["fails"][:8]:
+                e = byid[eid]
+                say("   %s %s x=%s*2^%d y=%s*2^%d sx=%d sy=%d" % (cl, e["g"], bits.unzint(e["x"][0]), e["x"][1], bits.unzint(e["y"][0]), e["y"][1], e["sx"], e["sy"]))
+    if tlc.overrides_available():
+        evs = selftest_events(ENCL_FNS, 2 if quick else 8, 96, 77, show=True)
+        evs = [e for e in evs if max(abs(e["x"][1]), abs(e["y"][1])) < 200]       # pure TLA+ shifts of 1000 bits cost seconds
+        outs = []
+        for ov in (True, False):
+            r = tlc.validate_events("Trace_AccuracyC", "Trace.cfg", evs, nproc=nproc, overrides=ov, name="enclc_ov")
+            outs.append((sorted(r["notes"]), sorted(r["fails"])))
+        same = outs[0] == outs[1] and len(outs[0][0]) == len(evs)
+        say("selftest C01: enclosures with/without Java overrides identical on %d points: %s" % (len(evs), same))
+        ok = ok and same and not outs[0][1]
+    r = tlc.run("MC_AccuracyC", "MC_AccuracyC.cfg", workers=nproc, timeout=3000)
+    say("selftest C01: MC_AccuracyC laws: ok=%s, %d states, %.1fs" % (r.ok, r.distinct, r.wall))
+    ok = ok and r.ok
+    r = tlc.run("MC_AccuracyC", "MC_AccuracyC_neg.cfg", workers=4, timeout=1200)
+    caught = "LawsOK" in r.invariant_violated
+    say("selftest C01: sabotaged enclosures caught by the laws: %s" % caught)
+    ok = ok and caught
+    evs = selftest_events(["asin", "log", "exp", "atanh"], 8, 96, 5)
+    victims = [e["id"] for e in evs if abs(bits.unzint(e["rre"][0])).bit_length() > 300][2::9][:3]
+    for v in victims:
+        m = bits.unzint(evs[v]["rre"][0])
+        m += (1 if v % 2 else -1) << (abs(m).bit_length() - 80)
+        evs[v]["rre"] = _dy(m, evs[v]["rre"][1])
+    r = tlc.validate_events("Trace_AccuracyC", "Trace.cfg", evs, nproc=1)
+    got = sorted(f[0] for f in r["fails"])
+    say("selftest C01: displaced references reported as misses: %s" % (got == victims and len(victims) == 3))
+    ok = ok and got == victims and len(victims) == 3
+    import_repo()
+    b = Batch()
+    rng = random.Random(11)
+    for fn, dt in (("asin", "complex64"), ("log1p", "complex128"), ("sqrt", "complex64"), ("atanh", "complex128")):
+        fmt = COMP[dt]
+        b.add(fn, dt, logu_patterns(fmt, 30, rng), logu_patterns(fmt, 30, rng), "logu")
+    victim = 71
+    b.events[victim]["wim"] = bits.nat(bits.unnat(b.events[victim]["wim"]) ^ (1 << 6))
+    r = tlc.validate_events("Trace_AccuracyC", "Trace.cfg", b.events, nproc=1)
+    got = [f[0] for f in r["fails"]]
+    say("selftest C01: corrupted result bit singled out: %s (%s)" % (got == [victim], r["fails"]))
+    ok = ok and got == [victim]
+    say("selftest C01: %s (%.1fs)" % ("PASS" if ok else "FAIL", time.time() - t0))
+    return ok
+
+
+if __name__ == "__main__":
+    if "--selftest" in sys.argv:
+        try:
+            good = selftest(quick="--full" not in sys.argv)
+        except tlc.MachineryError as ex:
+            print("MACHINERY-FAILURE selftest C01: %s" % ex)
+            good = False
+        sys.exit(0 if good else 2)
+    print("usage: python -m harness.props.c01 --selftest [--full]")
